@@ -39,7 +39,7 @@ import (
 
 var (
 	repo   = flag.String("repo", "/repo", "path of golang/geo")
-	cfgF   = flag.String("cfg", "extract.cfg", "configuration file")
+	cfgF   = flag.String("cfg", "extract.d", "configuration file or directory of *.cfg files")
 	outDir = flag.String("out", "", "output directory for Gen/*.v")
 	report = flag.String("report", "", "write a JSON report here")
 )
@@ -1753,9 +1753,24 @@ type cfgEntry struct {
 }
 
 func readCfg(path string) (units []string, entries []cfgEntry) {
-	data, err := os.ReadFile(path)
-	if err != nil {
-		fatal(err)
+	var data []byte
+	if st, err := os.Stat(path); err == nil && st.IsDir() {
+		files, _ := filepath.Glob(filepath.Join(path, "*.cfg"))
+		sort.Strings(files)
+		for _, f := range files {
+			d, err := os.ReadFile(f)
+			if err != nil {
+				fatal(err)
+			}
+			data = append(data, d...)
+			data = append(data, '\n')
+		}
+	} else {
+		var err error
+		data, err = os.ReadFile(path)
+		if err != nil {
+			fatal(err)
+		}
 	}
 	cur := ""
 	for _, ln := range strings.Split(string(data), "\n") {
@@ -1948,8 +1963,21 @@ func main() {
 			var b strings.Builder
 			fmt.Fprintf(&b, "(* GENERATED by harness/cmd/extract from %s — do not edit. *)\n", *repo)
 			b.WriteString("From Coq Require Import ZArith List Bool Floats.\nFrom Geo Require Import Base.GoPrim.\nImport ListNotations.\n")
+			needUnits := map[string]bool{}
+			for _, n := range g.order {
+				it := g.items[n]
+				if it.unit == u {
+					for d := range it.deps {
+						if du := g.items[d].unit; du != u {
+							needUnits[du] = true
+						}
+					}
+				}
+			}
 			for _, pu := range units[:i] {
-				fmt.Fprintf(&b, "From Geo Require Export Gen.%s.\n", pu)
+				if needUnits[pu] {
+					fmt.Fprintf(&b, "From Geo Require Export Gen.%s.\n", pu)
+				}
 			}
 			b.WriteString("Local Open Scope bool_scope.\n\n")
 			for _, n := range g.order {
